@@ -33,6 +33,11 @@ type Deposit struct {
 	Slot ecom.Hash
 	Msg  []byte
 	Node int
+	// Short != nil: the slot holds this short value instead of keccak256(Msg) (so a deposit of Msg
+	// never happened); Ground: Msg was ground so that its hash ends in Short / starts with 0x00.
+	Short    []byte
+	Ground   bool
+	LeadZero bool
 }
 
 // State is the EVM state after one block.
@@ -61,8 +66,11 @@ func slotOf(i int) ecom.Hash {
 	return s
 }
 
-func storageValue(msg []byte) []byte {
-	v := bytes.TrimLeft(crypto.Keccak256(msg), "\x00") // the EVM stores a word without leading zero bytes
+func storageValue(d *Deposit) []byte {
+	v := bytes.TrimLeft(crypto.Keccak256(d.Msg), "\x00") // the EVM stores a word without leading zero bytes
+	if d.Short != nil {
+		v = d.Short
+	}
 	enc, err := rlp.EncodeToBytes(v)
 	if err != nil {
 		panic(err)
@@ -93,7 +101,7 @@ func (c *Chain) BuildState(deps []int, salt uint64) *State {
 	}
 	for _, di := range deps {
 		d := c.Deps[di]
-		s.stor[d.Acct].Update(crypto.Keccak256(d.Slot[:]), storageValue(d.Msg))
+		s.stor[d.Acct].Update(crypto.Keccak256(d.Slot[:]), storageValue(d))
 	}
 	s.acctTrie = newTrie()
 	for i, a := range c.Accts {
